@@ -725,3 +725,45 @@ def rf177(run):
                           'linked with the lazy bb interface)' % g.name, line=calls['create_bb_stubs']['l'])
     run.control(rule, 'the lazy bb entry point found', n >= 1)
     return n
+
+
+# ---------------------------------------------------------------------------------------------
+# RF193: every register the interpreter code refers to is counted for the frame size
+# ---------------------------------------------------------------------------------------------
+
+def rf193(run):
+    rule = 'RF193'
+    run.rule(rule, 'mir-interp.c, preparation of the interpreter code: the frame of an activation has `max register number + 1` cells, computed '
+                   'while the code is generated.  Every register number written into the code — `v.i = …u.reg` / `…u.mem.base` / '
+                   '`…u.mem.index`, directly or in a helper — goes through get_reg or is passed to update_max_nreg in the same function.  A '
+                   'number that is not counted may be the highest one of the function: its cell lies outside the frame, the argument '
+                   'arriving in it is dropped and stores through it go elsewhere (D121)')
+    tu = run.tu('mir')
+    n = 0
+    for g in tu.func_list:
+        if g.body is None or not g.file.endswith('mir-interp.c'):
+            continue
+        counted = set()
+        for x in g.walk():
+            if x['k'] == 'CallExpr' and x.get('callee') == 'update_max_nreg':
+                counted.add(F.src(F.strip(F.call_args(x)[0])).replace(' ', ''))
+        for x in g.walk():
+            if not (x['k'] == 'BinaryOperator' and x['op'] == '='):
+                continue
+            l = F.strip(x['c'][0])
+            if not (l['k'] == 'MemberExpr' and l['n'] == 'i' and 'MIR_val' in (getattr(tu.type(l['c'][0]), 's', '') or '')):
+                continue
+            r = F.strip(x['c'][1])
+            rs = F.src(r).replace(' ', '')
+            if not (r['k'] == 'MemberExpr' and (rs.endswith('.u.reg') or rs.endswith('.u.mem.base') or rs.endswith('.u.mem.index'))):
+                continue
+            n += 1
+            ok = rs in counted or F.src(l).replace(' ', '') in counted   # `v.i = base; update_max_nreg (v.i, …)`
+            run.functions_analysed.add(('mir', g.name))
+            run.ob(rule, (g.name, x['l']), ok, {'site': '%s:%d %s' % (g.relfile(), x['l'], g.name), 'register written into the code': rs, 'counted': ok})
+            if not ok:
+                run.violation(rule, g, 'register not counted for the frame', '%s writes the register number `%s` into the interpreter code (line %d) '
+                              'without update_max_nreg: if it is the highest register of the function the frame is one cell short' % (g.name, rs, x['l']),
+                              line=x['l'])
+    run.control(rule, 'register numbers written by helpers found (push_mem)', n >= 1)
+    return n
